@@ -9,7 +9,14 @@
    next entry) -- plus a plain letter and a non-ASCII (two byte) letter.  Numbers are symbolic
    (0, 1, 2, 2^63-1, 2^64-1) because TLC integers are 32 bit; their decimal renderings are literal.
 
-   Declarative property (RoundTrip):  Parse(PrintTable(t)) = t  for EVERY job table t.
+   Declarative property (RoundTrip):  Parse(PrintTable(t)) = t  for EVERY job table t, as a MAP
+   source -> (stream -> offset) on the whole domain of offsets INCLUDING 0: a stream whose offset is 0
+   (what truncateJob leaves: every stream of the job reset to 0) must come back PRESENT with offset 0,
+   not absent -- the resume rule seeks to the minimum loaded offset, so a dropped zero stream moves
+   the restart point past events that were never committed.  Mechanism switch M_ZeroOffsetsWritten
+   (TRUE = the code: the writer emits every stream of a job that has any stream, whatever its offset);
+   the mutant FALSE ("a zero offset carries no information": zero streams and all-zero jobs are
+   skipped) must be REJECTED by TLC (R_RoundTrip violated).
    The code does not satisfy it for stream names that are empty or contain a newline and for file
    names that contain a newline (DESIGN.md section 8, D8).  That set is the named deviation
    D8Class; the residual invariant R_RoundTrip proves that nothing else breaks the round trip,
@@ -24,7 +31,8 @@ EXTENDS Integers, Sequences, FiniteSets, TLC, Json
 CONSTANTS NameSyms,       \* name symbols: 1 'a'  2 ':'  3 ' '  4 '\n'  5 '-'  6 'e-acute' (2 bytes)
           MaxName1,       \* length bound of the first stream name
           MaxName2,       \* length bound of the second stream name
-          Unconditional   \* TRUE: check RoundTrip for every table (faithful: D8 counterexample expected)
+          Unconditional,  \* TRUE: check RoundTrip for every table (faithful: D8 counterexample expected)
+          M_ZeroOffsetsWritten   \* mechanism: streams with offset 0 are written like any other (FALSE = mutant)
 
 VARIABLE t
 
@@ -71,7 +79,7 @@ Tables ==
   { [jobs |-> <<Job(f, big, big, s1)>> \o j2] :
       f \in FileNames, big \in {1, 64},
       s1 \in { <<Stream(n1, o1)>> : n1 \in Names1, o1 \in Offs }
-             \cup { <<Stream(n1, o1), Stream(n2, 1)>> : n1 \in Names1, o1 \in Offs, n2 \in Names2 }
+             \cup { <<Stream(n1, o1), Stream(n2, o2)>> : n1 \in Names1, o1 \in Offs, n2 \in Names2, o2 \in {0, 1} }
              \cup { <<>> },
       j2 \in { <<>>, <<Job(<<1>>, 2, 2, <<Stream(<<1>>, 2)>>)>> } }
 
@@ -83,10 +91,12 @@ WellFormed(tb) == \A k \in 1..Len(tb.jobs) :
 (* the writer: offsetDB.save, lines 258-291 *)
 RECURSIVE PrintStreams(_)
 PrintStreams(ss) == IF ss = <<>> THEN <<>>
+                    ELSE IF ~M_ZeroOffsetsWritten /\ Head(ss).off = 0 THEN PrintStreams(Tail(ss))   \* mutant only
                     ELSE Indent \o Bytes(Head(ss).name) \o Sep \o Digits(Head(ss).off) \o <<NL>> \o PrintStreams(Tail(ss))
 
 PrintJob(j) ==
   IF j.streams = <<>> THEN <<>>                                     \* len(job.offsets) == 0: skipped
+  ELSE IF ~M_ZeroOffsetsWritten /\ \A i \in 1..Len(j.streams) : j.streams[i].off = 0 THEN <<>>       \* mutant only
   ELSE KwFile \o Bytes(j.file) \o <<NL>> \o KwInode \o Digits(j.inode) \o <<NL>>
        \o KwSrc \o Digits(j.src) \o <<NL>> \o KwTs \o Digits(0) \o <<NL>>
        \o KwStreams \o <<NL>> \o PrintStreams(j.streams)
